@@ -285,3 +285,9 @@ def run(ctx, report: Report) -> None:
                              f'the HTML-only marker: it can match elements of a plain XML document')
     else:
         r3.note('docs/src/markdown/selectors/pseudo-classes.md not present: documentation clause skipped')
+
+    # ---- R5 (the whole pipeline by interpretation, bounded) --------------------------------------------------------------
+    r5 = report.rule('C11-R5', 'case rules per document type on a tree of case variants (whole pipeline; bounded)', floor=20)
+    from .e2ematch import case_rules_table
+    case_rules_table(ctx, r5)
+
